@@ -342,7 +342,8 @@ def streams(ctx):
         f = c.split(";")
         toks = f[4].split(",") if f[4] else []
         for _ in range(rng.randint(1, 3)):
-            toks.insert(rng.randint(0, len(toks)), "x")
+            # x: a state-preserving conversion; y: rebuilt from FRESH FramedParts carrying both buffers over in the public fields
+            toks.insert(rng.randint(0, len(toks)), rng.choice("xy"))
         conv.append(";".join(f[:4] + [",".join(toks)]))
     # partial writes that leave a remainder in a buffer whose capacity has shrunk (advance) before the conversion
     for big in (8000, 8192, 7500, 9000, 16000):
@@ -350,10 +351,12 @@ def streams(ctx):
             for tail in ("f", "c", "s100x2,f", "r,s5x1,c"):
                 conv.append("bytes+x;a%d,p;;;s%dx1,f,%s" % (acc, big, tail))
                 conv.append("bytes;a%d,p;;;s%dx1,f,x,%s" % (acc, big, tail))
+                conv.append("bytes;a%d,p;;;s%dx1,f,y,%s" % (acc, big, tail))
                 conv.append("lines+x;a%d,p,a3,p;;;s%dx3,f,%s" % (acc, big, tail))
     s4 = Stream("c14conv", "c14", conv, monitor=monitor, nontrivial=nontrivial, shrink=shrink, finding_key=finding_key,
                 timeout=300 if quick else 1500,
                 describe="%d cases of the other streams re-run with Framed::from_parts(into_parts()), into_map_io and into_map_codec applied "
-                         "before every Sink call, plus large partial writes followed by a conversion; the model is unchanged by construction "
+                         "before every Sink call, explicit conversions (x) and rebuilds from fresh FramedParts carrying the buffers over (y) between the calls, "
+                         "plus large partial writes followed by a conversion; the model is unchanged by construction "
                          "(conversions carry write_buf, read_buf and flags over)" % len(conv))
     return [s1, s2, s3, s4]
